@@ -177,7 +177,7 @@ def run(tier):
     spell = [SPELLINGS[vlib.seed() % len(SPELLINGS)]] if quick else SPELLINGS
     profile = {"repo": vlib.REPO, "seed": vlib.seed(), "words": wsel, "spellings": spell, "routes_per_shape": 1 if quick else 0,
                "skip_slow": True, "byte_positions": 6 if quick else 0}
-    order = {"benign": 0, "reserved": 0, "encoded": 1, "slash": 2, "readword": 3}
+    order = {"benign": 0, "reserved": 0, "reservedenc": 0, "encoded": 1, "slash": 2, "readword": 3}
     cases.sort(key=lambda c: (order.get(c["name"], 9), c["id"]))
     res = vlib.run_sharded(binary, "cases", profile, cases, payload_key="cases", timeout=1500)
     for e in res.get("errors", []):
